@@ -330,7 +330,7 @@ def harness_dir():
         os.symlink(ROOT + '/harness/src', d + '/src')
     os.makedirs(d + '/.cargo', exist_ok=True)
     open(d + '/.cargo/config.toml', 'w').write('[net]\noffline = true\n[build]\ntarget-dir = "%s/alt/target"\n' % BUILD)
-    shutil.copy(REPO + '/Cargo.lock', d + '/Cargo.lock') if not os.path.exists(d + '/Cargo.lock') else None
+    shutil.copy('/repo/Cargo.lock', d + '/Cargo.lock') if not os.path.exists(d + '/Cargo.lock') else None
     return d, BUILD + '/alt/target'
 
 
